@@ -206,6 +206,8 @@ def run(ctx: core.Ctx):
     from .. import gen as _gen
     b2check.run_b2(ctx, lambda rng_, th: [(_gen.client_lock(rng_, T), rng_.randrange(10 ** 9), rng_.choice([0, 0, 3])) for _ in range(4000 if th else 120)], [],
                    label="callbacks and (un)registrations under a client-side lock (a run that does not finish is a violation)", accept=False)
+    b2check.run_b2(ctx, lambda rng_, th: [(_gen.subunit_updates(rng_, T), rng_.randrange(10 ** 9), rng_.choice([0, 3, 6])) for _ in range(6000 if th else 150)], ["C09u"],
+                   label="update callback of a subunit object on a live connection: reports right behind the synchronisation reply and right after initialize() (monitor only)", accept=False)
     # exhaustive within a bound: every schedule up to 3 (thorough: 5) deviations from the canonical one, on small scenarios
     _small = _gen.small_scenarios()
     b2check.run_systematic(ctx, [_small[n] for n in ("reg-in-callback", "close-in-callback", "traffic")], ["C09"], depth=5 if ctx.tier == "thorough" else 3,
